@@ -1,0 +1,12 @@
+//go:build verif
+
+package cache
+
+// VerifSetNow replaces the package clock (unix seconds) used by the in-memory
+// TTL cache and returns a function restoring the previous one (verification
+// hook). Not safe for use concurrently with cache operations.
+func VerifSetNow(fn func() int64) (restore func()) {
+	var old = now
+	now = fn
+	return func() { now = old }
+}
